@@ -264,6 +264,9 @@ void UncompressedFile::setBufferSize(std::streamsize bufferSize) {
 
     /* set max size */
     m_bufferSize = bufferSize;
+
+    /* notify (a writer may be waiting for free space) */
+    tellgChanged.notify_all();
 }
 
 void UncompressedFile::dropOldData() {
